@@ -176,7 +176,7 @@ def extra(ctx):
     return fails[:4]
 
 
-TECHNIQUE = "Lean 4 invariant proof over an interleaving model (any number of connections, both modes, stale flag reads) + trace inclusion of hook-point traces of the real server under jitter and ASan"
+TECHNIQUE = "Lean 4 invariant proof over an interleaving model (any number of connections, both modes, stale flag reads; termination of stop(true) by a decreasing measure under a fair scheduler) + facts regenerated from SocketServer.cpp + trace inclusion of hook-point traces of the real server under jitter and ASan"
 LEVEL_TEXT = ("Proved in Lean 4 for any number of connections, concurrent and sequential mode, every interleaving of clients, accept "
               "loop, handlers and controller (including accept-loop reads of _requestStop that still see the old value, and the loop "
               "giving up on its own when waitInput fails): serve() is entered at most once per accepted connection, only after the "
